@@ -40,9 +40,20 @@ func total(xs []int) int {
 }
 
 // reader drains conn until an error, appending to *got.
+// rbuf < 0: the application changes its buffer size from one Read to the next
+// (a 1-byte Read in the middle of a transfer, then a large one, ...).
+var mixedBufs = []int{1, 4096, 7, 1500, 1, 1, 3000, 2}
+
 func reader(conn net.Conn, rbuf int, got *[]byte, errp *error) {
-	b := make([]byte, rbuf)
-	for {
+	full := make([]byte, 4096)
+	b := full
+	if rbuf > 0 {
+		b = full[:rbuf]
+	}
+	for i := 0; ; i++ {
+		if rbuf < 0 {
+			b = full[:mixedBufs[i%len(mixedBufs)]]
+		}
 		n, err := conn.Read(b)
 		*got = append(*got, b[:n]...)
 		if err != nil {
@@ -59,7 +70,7 @@ func reader(conn net.Conn, rbuf int, got *[]byte, errp *error) {
 func writer(conn net.Conn, tag byte, sizes []int, done *int, errp *error) {
 	off := 0
 	for _, n := range sizes {
-		k, err := conn.Write(o4h.Pattern(tag, off, n))
+		k, err := wire.WriteOwned(conn, o4h.Pattern(tag, off, n))
 		if err != nil {
 			*errp = fmt.Errorf("Write(%d): %w", n, err)
 			return
@@ -336,7 +347,7 @@ func nearTarget(name string, iat int, bias bool, seedNo int, seed int64) mc.Scen
 						}
 						p := o4h.Pattern(byte(i), records, size)
 						stream.Script = rnd.ScriptSample(i, 0) // coin 0: the die's own value
-						n, err := conn.Write(p)
+						n, err := wire.WriteOwned(conn, p)
 						if err != nil || n != size {
 							wErr = fmt.Errorf("Write(%d) = %d, %v", size, n, err)
 							return
@@ -413,7 +424,7 @@ func tinyTable(name string, iat int, seedHex string, seed int64) mc.Scenario {
 				}
 				for i, size := range []int{1, 2, 5, 13, 30, 100, 1500} {
 					p := o4h.Pattern(byte('a'+i), len(want), size)
-					if n, err := conn.Write(p); err != nil || n != size {
+					if n, err := wire.WriteOwned(conn, p); err != nil || n != size {
 						wErr = fmt.Errorf("Write(%d) = %d, %v", size, n, err)
 						return
 					}
@@ -608,9 +619,9 @@ func duplexStmt(name string, role string, iat int, bound int, seed int64) mc.Sce
 					}
 					rdone = true
 				})
-				if _, err := conn.Write(outbound[:120]); err != nil {
+				if _, err := wire.WriteOwned(conn, outbound[:120]); err != nil {
 					wrErr = err
-				} else if _, err := conn.Write(outbound[120:]); err != nil {
+				} else if _, err := wire.WriteOwned(conn, outbound[120:]); err != nil {
 					wrErr = err
 				}
 				s.Point("join", func() bool { return rdone && refDone })
@@ -706,7 +717,7 @@ func twoConnStmt(name string, role string, iat int, bound int, seed int64, prior
 						cs[0].hsErr = fmt.Errorf("earlier connection: read: %v", err)
 						return
 					}
-					p.conn.Write(o4h.Pattern('q', 0, 100))
+					wire.WriteOwned(p.conn, o4h.Pattern('q', 0, 100))
 					p.conn.Close()
 					p.conn.Close()
 				}
@@ -760,7 +771,7 @@ func twoConnStmt(name string, role string, iat int, bound int, seed int64, prior
 						x.rdone = true
 					})
 					s.Spawn(fmt.Sprintf("writer%d", i), func() {
-						_, x.wrErr = x.conn.Write(x.out)
+						_, x.wrErr = wire.WriteOwned(x.conn, x.out)
 					})
 				}
 				s.Point("join", func() bool { return cs[0].rdone && cs[1].rdone && cs[0].ref && cs[1].ref })
@@ -919,7 +930,7 @@ func edgeScenario(name, role string, iat int, kind string, arg int, seed int64) 
 							sched.Sleep(sessionPauses[r])
 						}
 						pausedRound = r
-						if _, wrErr = p.conn.Write(outbound[r*blk : (r+1)*blk]); wrErr != nil {
+						if _, wrErr = wire.WriteOwned(p.conn, outbound[r*blk : (r+1)*blk]); wrErr != nil {
 							return
 						}
 						n, err := io.ReadFull(p.conn, rb)
@@ -962,8 +973,8 @@ func edgeScenario(name, role string, iat int, kind string, arg int, seed int64) 
 						}
 						return nil
 					}
-					_, otherErr = other.conn.Write(o4h.Pattern('X', 0, 3000))
-					_, wrErr = p.conn.Write(outbound)
+					_, otherErr = wire.WriteOwned(other.conn, o4h.Pattern('X', 0, 3000))
+					_, wrErr = wire.WriteOwned(p.conn, outbound)
 					other.real.Close()
 					s.Point("peer-done", func() bool { return p.refDone })
 					finished = true
@@ -1062,6 +1073,9 @@ func main() {
 							rbufs = []int{1, 7, 4096}
 						} else if sc.name == "edges" {
 							rbufs = []int{1000, 4096}
+						}
+						if sc.name != "small" && (iat == 0 || cfg.Thorough()) {
+							rbufs = append(rbufs, -1)
 						}
 						for _, rb := range rbufs {
 							bb := b
